@@ -120,7 +120,9 @@ let check (case : Sexp.t) : unit =
         if n >= 3 then bump "nontrivial";
         let okw = if it.in_dim = n && wfb nn th && outsb (nat_of_int 1) th then true
           else (result id "VIOL" "wf" (Printf.sprintf "argmax(%d): tree is not a well-shaped map R^%d -> R" n n); false) in
-        let ok1 = okw && both_equiv ~id ~tag:"argmax" n th (argmax_spec nn) (argmax nn) in
+        (* the textbook tree has n^(n-1) terminals: beyond dimension 6 only the (proved) model tree is compared *)
+        let ok1 = okw && (if n <= 6 then both_equiv ~id ~tag:"argmax" n th (argmax_spec nn) (argmax nn)
+                          else (bump "argmax_model_only"; equiv_check ~id ~tag:"argmax-model" n th (argmax nn))) in
         let ok2 = def_points ~id (fun x -> Some [qnat (argmax_def x)]) (pts_of pts) in
         if ok1 && ok2 then result id "OK" "argmax" ""))
   | List [Atom "case"; Atom id; Atom "class"; n; c; Atom oc; st; pts] ->
